@@ -4685,9 +4685,11 @@ def _make_segments(part):
                     ):  # maximal expected number of volta brackets 10
                         if "volta_start" in list(boundaries[current_volta_end].keys()):
                             # add the beginning to the jump destinations
-                            numbers = boundaries[current_volta_end][
-                                "volta_start"
-                            ].number.split(",")
+                            # the number may be given as an int (a single
+                            # number) as well as a string ("1", "1, 2")
+                            numbers = str(
+                                boundaries[current_volta_end]["volta_start"].number
+                            ).split(",")
                             numbers = [str(int(n)) for n in numbers]
                             current_volta_total_number += len(numbers)
                             for no in numbers:
